@@ -152,4 +152,38 @@ def run(chk, facts_dir, tier):
                 chk.fail("R6.2", close, "store-before-flush", "the in-memory index is replaced by something other than the result of a successful flush: %s" % show(val)[:100], bg, st["line"])
         else:
             chk.fail("R6.2", close, "background-shape", "the background closure of close writes the file directly or does not store the flushed index (flush=%d store=%d direct writers=%d)" % (len(fl), len(stores), len(writers)), bg)
+    # ---------------- R6.5: the bloom filter of a stream index covers every key of the index
+    chk.rule("R6.5", "BLOOM COVERS INDEX: every function of OpenStreamIndex that adds a key to the in-memory index (BTreeMap entry / insert / extend on `index`) also sets that key in "
+                     "the bloom filter (`bloom.set`): the filter is sealed into the closed index at rollover and written to stream.sidx, and ClosedStreamIndex::get_key answers "
+                     "'absent' for every stream the filter does not contain")
+    OSI = "sierradb::bucket::stream_index::open::OpenStreamIndex::"
+    n5 = 0
+    for p, b in sorted(prog.bodies.items()):
+        root = b.root or b.path
+        if not root.startswith(OSI):
+            continue
+        ev = None
+        adds, sets = [], []
+        for bi, t in b.calls():
+            c = b.callee_decl(t) or ""
+            last = c.rsplit("::", 1)[-1]
+            if "BTreeMap" in c and last in ("entry", "insert", "extend", "append", "try_insert") and t["args"]:
+                ev = ev or Ev(prog, b)
+                recv = ev.operand(t["args"][0], (bi, "T"))
+                if any(isinstance(x, tuple) and x and x[0] == "field" and x[2] == "index" and "OpenStreamIndex" in str(x[3]) for x in walk(recv)):
+                    adds.append(t)
+            if "Bloom" in c and last in ("set", "check_and_set"):
+                sets.append(t)
+        if not adds:
+            continue
+        n5 += 1
+        chk.analysed(p)
+        # the family (function + its closures) must set the bloom filter
+        fam_sets = sets or [t for fb_ in prog.family(root) for _, t in fb_.calls() if "Bloom" in (fb_.callee_decl(t) or "") and (fb_.callee_decl(t) or "").rsplit("::", 1)[-1] in ("set", "check_and_set")]
+        if fam_sets:
+            chk.ok("R6.5", "%s adds keys to the index and to the bloom filter" % root.rsplit("::", 1)[-1], b.where(adds[0]["line"]))
+        else:
+            chk.fail("R6.5", root, "index-without-bloom", "keys are added to the stream index without being added to its bloom filter: once the segment is sealed, lookups of these streams "
+                     "are answered 'absent' by the filter although the index files are complete", b, adds[0]["line"])
+    chk.floor("R6.5", n5, 1)
     return {}
